@@ -18,47 +18,79 @@ theorem normal_congr (s : St) (ts' : List Task) (l : Bool)
   simp only [Normal, Quiet, EqN, hw, hc] at *
   exact h
 
-theorem step_spawnObs {k : Nat} {s : St} (o : Obs) (hw : 1 ≤ o.w) (hu : WfUpd k o.upd)
-    (I : Inv k s) : Inv k { s with tasks := s.tasks ++ [Task.obsStart o] } := by
-  have hW : ∀ b, pendW b (s.tasks ++ [Task.obsStart o]) = pendW b s.tasks := by
-    intro b; simp [tw]
-  have hC : ∀ b c, pend b c (s.tasks ++ [Task.obsStart o]) = pend b c s.tasks := by
-    intro b c; simp [tc]
+theorem step_spawnObs {k : Nat} {s : St} (pre post : List Task) (o : Obs) (hw : 1 ≤ o.w) (hu : WfUpd k o.upd)
+    (ht : s.tasks = pre ++ post)
+    (I : Inv k s) : Inv k { s with tasks := pre ++ Task.obsStart o :: post } := by
+  have hW : ∀ b, pendW b (pre ++ Task.obsStart o :: post) = pendW b s.tasks := by
+    intro b; simp [ht, tw]
+  have hC : ∀ b c, pend b c (pre ++ Task.obsStart o :: post) = pend b c s.tasks := by
+    intro b c; simp [ht, tc]
   refine ⟨?_, I.awf, I.zero, ?_, ?_, ?_, I.snapsOk⟩
-  · intro t ht
-    simp only [List.mem_append, List.mem_singleton] at ht
-    rcases ht with ht | rfl
-    · exact I.twf t ht
+  · intro t h
+    simp only [List.mem_append, List.mem_cons] at h
+    rcases h with h | rfl | h
+    · exact I.twf t (by simp [ht, h])
     · exact ⟨hw, hu⟩
-  · simpa [active] using I.act
+    · exact I.twf t (by simp [ht, h])
+  · have := I.act; simp [ht, active] at this ⊢; exact this
   · intro hl
     exact normal_congr s _ s.lock hW hC (I.normal hl)
-  · intro t ht
-    simp only [List.mem_append, List.mem_singleton] at ht
-    rcases ht with ht | rfl
-    · exact phase_congr s _ s.lock hW hC t (I.phase t ht)
+  · intro t h
+    simp only [List.mem_append, List.mem_cons] at h
+    rcases h with h | rfl | h
+    · exact phase_congr s _ s.lock hW hC t (I.phase t (by simp [ht, h]))
     · trivial
+    · exact phase_congr s _ s.lock hW hC t (I.phase t (by simp [ht, h]))
 
-theorem step_spawnCol {k : Nat} {s : St}
-    (I : Inv k s) : Inv k { s with tasks := s.tasks ++ [Task.colWant] } := by
-  have hW : ∀ b, pendW b (s.tasks ++ [Task.colWant]) = pendW b s.tasks := by
-    intro b; simp [tw]
-  have hC : ∀ b c, pend b c (s.tasks ++ [Task.colWant]) = pend b c s.tasks := by
-    intro b c; simp [tc]
+theorem step_spawnCol {k : Nat} {s : St} (pre post : List Task) (ht : s.tasks = pre ++ post)
+    (I : Inv k s) : Inv k { s with tasks := pre ++ Task.colWant :: post } := by
+  have hW : ∀ b, pendW b (pre ++ Task.colWant :: post) = pendW b s.tasks := by
+    intro b; simp [ht, tw]
+  have hC : ∀ b c, pend b c (pre ++ Task.colWant :: post) = pend b c s.tasks := by
+    intro b c; simp [ht, tc]
   refine ⟨?_, I.awf, I.zero, ?_, ?_, ?_, I.snapsOk⟩
-  · intro t ht
-    simp only [List.mem_append, List.mem_singleton] at ht
-    rcases ht with ht | rfl
-    · exact I.twf t ht
+  · intro t h
+    simp only [List.mem_append, List.mem_cons] at h
+    rcases h with h | rfl | h
+    · exact I.twf t (by simp [ht, h])
     · trivial
-  · simpa [active] using I.act
+    · exact I.twf t (by simp [ht, h])
+  · have := I.act; simp [ht, active] at this ⊢; exact this
   · intro hl
     exact normal_congr s _ s.lock hW hC (I.normal hl)
-  · intro t ht
-    simp only [List.mem_append, List.mem_singleton] at ht
-    rcases ht with ht | rfl
-    · exact phase_congr s _ s.lock hW hC t (I.phase t ht)
+  · intro t h
+    simp only [List.mem_append, List.mem_cons] at h
+    rcases h with h | rfl | h
+    · exact phase_congr s _ s.lock hW hC t (I.phase t (by simp [ht, h]))
     · trivial
+    · exact phase_congr s _ s.lock hW hC t (I.phase t (by simp [ht, h]))
+
+/-- `get_sample_sum`: a task that took the lock but did not flip gives it back -/
+theorem step_release {k : Nat} {s : St} (pre post : List Task)
+    (ht : s.tasks = pre ++ Task.colLocked :: post)
+    (I : Inv k s) : Inv k { s with tasks := pre ++ post, lock := false } := by
+  have hW : ∀ b, pendW b (pre ++ post) = pendW b s.tasks := by
+    intro b; simp [ht, tw]
+  have hC : ∀ b c, pend b c (pre ++ post) = pend b c s.tasks := by
+    intro b c; simp [ht, tc]
+  have hN : Normal s := I.phase Task.colLocked (by simp [ht])
+  have hact := I.act
+  simp only [ht, nActive_append, nActive_cons, active] at hact
+  have hz : nActive pre + nActive post = 0 := by split at hact <;> omega
+  refine ⟨?_, I.awf, I.zero, ?_, ?_, ?_, I.snapsOk⟩
+  · intro t h
+    simp only [List.mem_append] at h
+    rcases h with h | h
+    · exact I.twf t (by simp [ht, h])
+    · exact I.twf t (by simp [ht, h])
+  · simp only [nActive_append]; simp; omega
+  · intro _
+    exact normal_congr s _ false hW hC hN
+  · intro t h
+    simp only [List.mem_append] at h
+    rcases h with h | h
+    · exact phase_congr s _ false hW hC t (I.phase t (by simp [ht, h]))
+    · exact phase_congr s _ false hW hC t (I.phase t (by simp [ht, h]))
 
 theorem step_acquire {k : Nat} {s : St} (pre post : List Task)
     (ht : s.tasks = pre ++ Task.colWant :: post) (hl : s.lock = false)
